@@ -33,7 +33,7 @@ REPO = os.environ.get('VERIF_REPO', '/repo')
 ENV = dict(os.environ, CARGO_NET_OFFLINE='true', CARGO_TERM_COLOR='never')
 ENV.pop('RUSTFLAGS', None)
 NCPU = os.cpu_count() or 4
-MEM_LIMIT = int(os.environ.get('VERIF_MEM_GB', '10')) << 30
+MEM_LIMIT = int(os.environ.get('VERIF_MEM_GB', '14')) << 30
 
 
 def log(*a):
@@ -129,6 +129,8 @@ def generate_crate(prop, crate_name, scratch):
 
 def _limits():
     os.setsid()
+    # address-space cap per Kani process tree member: CBMC's array theory can otherwise take > 60 GB
+    resource.setrlimit(resource.RLIMIT_AS, (MEM_LIMIT, MEM_LIMIT))
 
 
 def run_cmd(cmd, cwd, timeout, env=None):
@@ -229,7 +231,7 @@ def run_harness(crate_dir, h, scratch, playback=False):
     if timed_out:
         res['state'] = 'undecided'
         res['why'] = f'timeout {timeout}s'
-    elif 'run out of memory' in out or 'CBMC failed' in out:
+    elif 'out of memory' in out or 'CBMC failed' in out or 'std::bad_alloc' in out:
         res['state'] = 'undecided'
         res['why'] = 'CBMC failed / out of memory'
     elif res['verdict'] == 'NONE':
@@ -495,6 +497,10 @@ def run_property(prop, tier, spec, py_jobs=None):
                     infra.append(f"{r['harness']}: no playback for {key}")
                     continue
                 native = p.get('panicked')
+                if not p.get('compiled'):
+                    errs = '\n'.join(l for l in p.get('native_out', '').split('\n') if l.startswith('error') or l.startswith(' -->'))[:1500]
+                    infra.append(f"{key}: playback test did not build/run natively:\n{errs}")
+                    continue
                 cli, cli_details = cli_confirm(p.get('replay', {})) if r.get('engine') != 'smt' else (
                     p.get('cli'), p.get('cli_details'))
                 role = (p.get('replay', {}).get('ROLE') or [None])[0]
